@@ -96,6 +96,10 @@ func decodeFormat4(in []byte, code2rune func(c int) rune) (Subtable, error) {
 
 // Lookup implements the Subtable interface.
 func (cmap Format4) Lookup(r rune) glyph.ID {
+	if r < 0 || r > 0xFFFF {
+		// format 4 covers the BMP only; do not alias other planes into it
+		return 0
+	}
 	return cmap[uint16(r)]
 }
 
